@@ -1224,6 +1224,9 @@ theorem post6_step (cfg : Cfg) (fuel : Nat) (s : StR) (m : RM) (h : Inv6 s m [] 
   | syncMode sm =>
     simp only [stepRWith, fold6_nil]
     exact post6_of_inv (inv6_core h s.core rfl rfl rfl _ _ _) rfl rfl rfl
+  | cancelMode ck =>
+    simp only [stepRWith, fold6_nil]
+    exact post6_of_inv h rfl rfl rfl
   | flat e =>
     cases e with
     | make id ex =>
